@@ -124,7 +124,20 @@ __attribute__((noinline)) static void probe_samp(Wd::sbx& sb, long double a, lon
   tainted<Samp, S> t;
   t.n = 3; t.v[0] = a; t.v[1] = b;
   if (mode == 0) Wd::invoke<int(Samp)>(sb, "take_samp", t);
-  else { auto img = t.UNSAFE_sandboxed(sb); std::memcpy(g_seen, &img, sizeof img); g_seen_len = sizeof img; }
+  else if (mode == 1) { auto img = t.UNSAFE_sandboxed(sb); std::memcpy(g_seen, &img, sizeof img); g_seen_len = sizeof img; }
+  else if (mode == 2) { // the whole struct stored into sandbox memory
+    auto ps = Wd::tptr<Samp>(sb, 16384);
+    std::memset(reinterpret_cast<void*>(Wd::base(sb) + 16384), 0, sizeof(GSamp));
+    *ps = t;
+    std::memcpy(g_seen, reinterpret_cast<void*>(Wd::base(sb) + 16384), sizeof(GSamp)); g_seen_len = sizeof(GSamp);
+  } else { // a tainted<long double[2]> stored whole into an array cell of the sandbox
+    tainted<long double[2], S> ta;
+    ta[0] = a; ta[1] = b;
+    auto pa = Wd::tptr<long double[2]>(sb, 16384);
+    std::memset(reinterpret_cast<void*>(Wd::base(sb) + 16384), 0, 32);
+    *pa = ta;
+    std::memcpy(g_seen, reinterpret_cast<void*>(Wd::base(sb) + 16384), 32); g_seen_len = 32;
+  }
 }
 static tainted<Rec, S> cb_rec(rlbox_sandbox<S>&) { tainted<Rec, S> r{}; r.tag = 'A'; r.id = 42; r.kind = 'B'; return r; }
 // an application object that was not value-initialised, built by a small function and returned in registers: its OWN padding
@@ -207,11 +220,14 @@ int main(int argc, char** argv)
       if (!mon::aborts([&] { Wd::invoke<int(Opt)>(sb, "take_opt", op); })) judge("invoke-argument", "struct{char;int;char}", { { 0, 1 }, { 4, 4 }, { 8, 1 } });
     }
     if (sizeof(long double) == 16) {
-      for (int mode = 0; mode < 2; mode++) {
-        mon::ctx("by-value-struct/%s | Samp round %d", mode ? "UNSAFE_sandboxed" : "invoke-argument", round);
+      static const char* const mname[] = { "invoke-argument", "UNSAFE_sandboxed", "whole-struct-store", "whole-array-store" };
+      for (int mode = 0; mode < 4; mode++) {
+        mon::ctx("by-value-struct/%s | Samp round %d", mname[mode], round);
         app_work(&sink); std::memset(g_seen, 0, sizeof g_seen);
         volatile long double va = 1.5L + round, vb = -2.75L;
-        if (!mon::aborts([&] { probe_samp(sb, va, vb, mode); })) judge(mode ? "UNSAFE_sandboxed" : "invoke-argument", "struct{int;long double[2]}", { { 0, 4 }, { 16, 10 }, { 32, 10 } });
+        if (mon::aborts([&] { probe_samp(sb, va, vb, mode); })) continue;
+        if (mode < 3) judge(mname[mode], "struct{int;long double[2]}", { { 0, 4 }, { 16, 10 }, { 32, 10 } });
+        else judge(mname[mode], "long double[2]", { { 0, 10 }, { 16, 10 } });
       }
     }
     mon::ctx("by-value-struct/invoke-argument | Pair round %d", round);
